@@ -682,6 +682,13 @@ func c09GenEp(out *emit.Out, r *rand.Rand, thorough bool) {
 		add("post-handshake-empty-flood", with(cfg, done(c09Step{Op: "rec", Typ: 23, N: 60, Batch: 8}, app)))
 		add("post-handshake-ccs", with(cfg, done(c09Step{Op: "rec", Typ: 20, Data: "01", N: 3}, app)))
 		add("post-handshake-garbage", with(cfg, done(c09Step{Op: "raw", Data: hx(c09GarbageRecord(cfg, r))}, app)))
+		if !puppet.IsGCM(cfg.Suite) {
+			// CBC records under the connection key whose content is nothing but valid padding: the padding covers the
+			// place of the MAC or the whole plaintext (L plaintext bytes, padding byte P)
+			for _, lp := range [][2]int{{16, 15}, {32, 31}, {48, 47}, {48, 32}, {48, 16}, {48, 15}, {64, 63}, {64, 32}, {64, 31}, {80, 79}, {80, 48}, {80, 47}, {272, 255}} {
+				add(fmt.Sprintf("post-handshake-cbc-all-padding-%d-%d", lp[0], lp[1]), with(cfg, done(c09Step{Op: "rawcbc", Typ: 23, Len: lp[0], Off: lp[1]}, app)))
+			}
+		}
 		if cfg.Stack == "tlcp" {
 			big := []c09Step{{Op: "raw", Data: hx([]byte{23, 1, 1, 0xea, 0x60}), Fill: 16000}, {Op: "raw", Fill: 16000, N: 3, Batch: 1}}
 			add("oversize-record-in-pieces", with(cfg, done(big...)))
